@@ -182,7 +182,8 @@ def main(chk):
     cases += [(l, (), "=", k % 2 == 0) for k, l in enumerate(acls) if len(l) >= 3][::2]
     # entries with different address groups on both sides (group members attached), next to entries inside one group only
     GALPHA = ["permit ip object-group G1 object-group GD", "permit tcp host 10.0.0.1 host 10.0.0.2 eq 80", "permit tcp host 10.0.0.1 host 10.1.0.2 eq 80",
-              "permit ip object-group GD object-group G1", "permit tcp host 10.1.0.9 host 10.0.1.9", "deny ip any any", "permit ip object-group G3 any"]
+              "permit ip object-group GD object-group G1", "permit tcp host 10.1.0.9 host 10.0.1.9", "deny ip any any", "permit ip object-group G3 any",
+              "permit ip object-group GEDGE any", "permit ip object-group GALL3 any"]
     gcases = [(l, (), "", False) for n in (2, 3) for l in itertools.product(GALPHA, repeat=n)]
     cases += gcases
     # entries whose port expression denotes no port at all standing ABOVE ordinary entries (they cover nothing)
